@@ -31,6 +31,9 @@ HR = CC + "HostnameRuleDb"
 def check(run):
     for cfg in run.cfgs("A", "B"):
         F = run.facts(cfg)
+        from analysis.guards import rule_visits_all as _rva
+        run.guard("C16.9.every-rule", cfg, lambda: _rva(run, "C16.9.every-rule", F, cfg, ['cosmetic_filter_cache::CosmeticFilterCache::hostname_cosmetic_resources', 'filters::cosmetic::CosmeticFilter::locations_before_sharp', 'filters::cosmetic::CosmeticFilter::parse_before_sharp', 'cosmetic_filter_cache::HostnameRuleDb::store_rule'],
+                  "Every location of a rule's domain list scopes the rule, and every rule stored for a label of the host is returned", minimum=4))
         run.guard("C16.1.hash-agreement", cfg, lambda: rule_hash(run, F, cfg))
         run.guard("C16.2.bin-pairing", cfg, lambda: rule_pairing(run, F, cfg))
         run.guard("C16.3.populate-before-prune", cfg, lambda: rule_order(run, F, cfg))
@@ -48,6 +51,8 @@ def check(run):
         b2 = run.borrow("C08", only=r"cosmetic_filter_cache::(HostnameRuleDb|CosmeticFilterCache)\.(specific_rules|misc_generic_selectors|hide|unhide|inject_script|uninject_script|procedural_action|procedural_action_exception|style|unstyle|remove|unremove)",
                         why="per-hostname cosmetic state must be written and restored field by field")
         run.guard("C16.via.C08.1.state-coverage", cfg, lambda: _C08.rule_coverage(b2, F, cfg))
+        b3 = run.borrow("C08", only=r"SerializeFormat", why="the per-host rule stores and their exception twins have the same type: only their position on the wire tells them apart")
+        run.guard("C16.via.C08.2.positional", cfg, lambda: _C08.rule_positional(b3, F, cfg))
 
 
 def rule_hash(run, F, cfg):
